@@ -9,6 +9,9 @@ import traceback
 from engine import common
 
 
+E1_PROPS = {'C01', 'C02', 'C03', 'C07', 'C08', 'C09', 'C17', 'C18', 'C20'}
+
+
 def main():
     ap = argparse.ArgumentParser()
     ap.add_argument('prop')
@@ -28,6 +31,22 @@ def main():
         common.assert_repo_tree()
         mod = importlib.import_module('props.' + a.prop.lower())
         mod.run(ctx)
+        # every entry point that consults the compiled regexes (direct call, compiled matcher, filter) is observed with spy objects;
+        # if one of them reads the regexes with another method than the others, the property is decided again for that reading
+        try:
+            from engine import rxsmt
+            variants = rxsmt.method_variants()
+        except Exception:  # noqa: BLE001
+            variants = [None]
+        if len(variants) > 1 and a.prop in E1_PROPS:
+            first = dict(ctx.coverage)
+            for k in range(1, len(variants)):
+                rxsmt.VARIANT = k
+                ctx.coverage = {}
+                mod.run(ctx)
+            rxsmt.VARIANT = 0
+            first['regex_method_variants'] = [list(v) for v in variants]
+            ctx.coverage = first
         code = common.finish(ctx, getattr(mod, 'LEVEL', 'model_checking'))
     except common.HarnessError as e:
         print(f'HARNESS-ERROR property={a.prop}: {e}')
